@@ -3,8 +3,8 @@
 package props
 
 import (
-	"math"
 	"fmt"
+	"math"
 	"math/rand/v2"
 	"sort"
 
